@@ -58,10 +58,10 @@ fn doc(variant: i64, k: usize) -> Map<String, Value> {
             match sym::choose(4) {
                 0 => {}
                 1 => {
-                    m.insert("meta♭".to_string(), json!({"k": sym::string(PRINTABLE, 1, 1)}));
+                    m.insert("meta♭".to_string(), json!({"k": "v"}));
                 }
                 2 => {
-                    m.insert("meta♭".to_string(), Value::from(format!("^{}", sym::string(PRINTABLE, 0, 1))));
+                    m.insert("meta♭".to_string(), Value::from(format!("^{}", sym::string(PRINTABLE, 1, 1))));
                 }
                 _ => {
                     m.insert("meta♭".to_string(), json!({"_id": "m", "k": "w"}));
@@ -70,7 +70,7 @@ fn doc(variant: i64, k: usize) -> Map<String, Value> {
             match sym::choose(3) {
                 0 => {}
                 1 => {
-                    m.insert("s♭".to_string(), Value::from(sym::string(PRINTABLE, 0, 2)));
+                    m.insert("s♭".to_string(), Value::from(sym::string(PRINTABLE, 1, 1)));
                 }
                 _ => {
                     m.insert("s♭".to_string(), Value::from("a"));
@@ -153,6 +153,10 @@ pub fn array_chain() {
         let o = ORDERS[sym::choose(k)];
         let mut d = Map::new();
         d.insert("items♭".to_string(), elems(o));
+        // elements that are not in the array stay alive in a second array (a removed element must not be
+        // hidden from the first one merely because its object was deleted)
+        let rest: Vec<&str> = ["a", "b", "c", "d"].iter().filter(|x| !o.contains(x)).cloned().collect();
+        d.insert("more♭".to_string(), elems(&rest));
         a.m.update(d.clone()).expect("update");
         let r = a.m.read(None).expect("read");
         assert!(r == expected(&d), "stored array version does not reconstruct to the submitted array");
